@@ -70,7 +70,10 @@ def run_apply(case):
             q = case.get("q", [0.25, 0.5])
             a = call(gb.quantile, values, q=q, mask=mask)
             b = call(gb.apply, values, np.quantile, mask=mask, q=q)
-            same = int(np.array_equal(np.asarray(a, dtype=float).ravel(), np.asarray(b, dtype=float).ravel(), equal_nan=True))
+            # the entry labelled (group, q_j) must be the j-th entry of np.quantile(group values, q)
+            qa = {tuple(map(str, k[:-1])) + (round(float(k[-1]), 9),): x for k, x in zip(a.index.tolist(), np.asarray(a, dtype=float).ravel().tolist())}
+            qb = {tuple(map(str, k[:-1])) + (round(float(q[int(k[-1])]), 9),): x for k, x in zip(b.index.tolist(), np.asarray(b, dtype=float).ravel().tolist())}
+            same = int(len(qa) == len(a) and qa.keys() == qb.keys() and all((qa[k] == qb[k]) or (qa[k] != qa[k] and qb[k] != qb[k]) for k in qa))
     except Exception as ex:
         tr.update(out="raise", exc=type(ex).__name__, msg=str(ex)[:160], got=[], labels=[], res=[])
         return tr
